@@ -500,3 +500,27 @@ def coverage_extra(tier, seed, results):
         f = r["cfg"]["fam"]
         fam[f] = fam.get(f, 0) + 1
     return {"cases_by_family": fam}
+
+# ---- call-order plane (executed by mc/core.py in fresh interpreters, see mc/props/_hist_common.py): the result of
+# a call must not depend on which other calls (other dtype / method / size / options) were made before it
+_HIST_LABELS = [('float32', 'exacteig', 0), ('float64', 'exacteig', 0), ('float64', 'custom_exacteig', 1), ('complex128', 'exacteig', 1), ('float64', 'davidson', 1)]
+HISTORY = {"labels": ["/".join(str(x) for x in c) for c in _HIST_LABELS], "tol": [0.0001, 1e-11, 1e-11, 1e-11, 1e-07],
+           "depth": {"quick": 2, "thorough": 3},
+           "prelude": r'''import torch, xitorch
+from xitorch import LinearOperator
+from xitorch.linalg import symeig
+CALLS = %r
+def do(i):
+    dtn, method, withM = CALLS[i]
+    dt = getattr(torch, dtn)
+    g = torch.Generator().manual_seed(7)
+    n = 6
+    A0 = torch.randn((n, n), generator=g, dtype=torch.float64)
+    A = ((A0 + A0.T) / 2).to(dt)
+    M0 = torch.randn((n, n), generator=g, dtype=torch.float64)
+    M = (M0 @ M0.T / n + torch.eye(n, dtype=torch.float64)).to(dt)
+    torch.manual_seed(0)
+    opts = {"min_eps": 1e-10, "max_niter": 200} if method == "davidson" else {}
+    e, v = symeig(LinearOperator.m(A, is_hermitian=True), neig=3, M=(LinearOperator.m(M, is_hermitian=True) if withM else None), method=method, **opts)
+    return e.double().reshape(-1).tolist()
+''' % (_HIST_LABELS,)}
